@@ -111,18 +111,33 @@ func buildRep(t *tree.Node, scheme []repKind, depth int) interface{} {
 			keys = append(keys, k)
 		}
 		sort.Strings(keys)
+		// in front of every data field: a field that is ignored, then an inlined struct without
+		// exported settings - neither contributes a setting, neither may influence its neighbour
 		var fields []reflect.StructField
+		var dataIdx []int
 		for i, k := range keys {
+			fields = append(fields,
+				reflect.StructField{Name: fmt.Sprintf("Ign%d", i), Type: reflect.TypeOf(0), Tag: `config:",ignore"`},
+			)
+			if i%2 == 1 {
+				fields = append(fields, reflect.StructField{Name: fmt.Sprintf("Inl%d", i), Type: reflect.TypeOf(struct{}{}), Tag: `config:",inline"`})
+			}
 			f := reflect.StructField{Name: "F" + strings.ToUpper(k), Type: tIface, Tag: reflect.StructTag(fmt.Sprintf(`config:"%s"`, k))}
 			if i%2 == 0 {
 				f = reflect.StructField{Name: strings.ToUpper(k), Type: tIface}
 			}
+			dataIdx = append(dataIdx, len(fields))
 			fields = append(fields, f)
+			if i%2 == 1 {
+				// an untagged field behind a tagged one, holding nothing
+				fields = append(fields, reflect.StructField{Name: fmt.Sprintf("Zz%d", i), Type: tIface})
+			}
 		}
 		st := reflect.New(reflect.StructOf(fields)).Elem()
 		for i, k := range keys {
+			st.FieldByName(fmt.Sprintf("Ign%d", i)).SetInt(99)
 			if v := sub(t.D[k]); v != nil {
-				st.Field(i).Set(reflect.ValueOf(v))
+				st.Field(dataIdx[i]).Set(reflect.ValueOf(v))
 			}
 		}
 		return st.Interface()
@@ -595,11 +610,30 @@ func c05Flatten(ts []*tree.Node) *core.Space {
 					}
 					return st.Interface()
 				}
-				for _, form := range []struct {
+				type formT struct {
 					name string
 					v    interface{}
-				}{{"map", in}, {"struct-ascending", mkStruct(false)}, {"struct-descending", mkStruct(true)}} {
-					cfg, err := ucfg.NewFrom(form.v, ucfg.PathSep("."))
+					sep  string
+				}
+				forms := []formT{{"map", in, "."}, {"struct-ascending", mkStruct(false), "."}, {"struct-descending", mkStruct(true), "."}}
+				// the same spellings with separators of several characters
+				for _, sep := range []string{"::", "->", "/"} {
+					orig := in
+					in = map[string]interface{}{}
+					for k, v := range orig {
+						in[strings.Replace(k, ".", sep, -1)] = v
+					}
+					for i := range keys {
+						keys[i] = strings.Replace(keys[i], ".", sep, -1)
+					}
+					forms = append(forms, formT{"map sep=" + sep, in, sep}, formT{"struct-ascending sep=" + sep, mkStruct(false), sep})
+					for i := range keys {
+						keys[i] = strings.Replace(keys[i], sep, ".", -1)
+					}
+					in = orig
+				}
+				for _, form := range forms {
+					cfg, err := ucfg.NewFrom(form.v, ucfg.PathSep(form.sep))
 					if err != nil {
 						res = core.Fail("flatten", "FLATTEN rejected "+form.name, "NewFrom failed: "+err.Error())
 						return
@@ -748,6 +782,19 @@ func c05Dups() *core.Space {
 					union = tree.Merge(tree.Default, union, src)
 				}
 				c, err := ucfg.NewFrom(st.Interface(), ucfg.PathSep("."))
+				// the same entries spelled with a separator of two characters must get the same verdict
+				var fields2 []reflect.StructField
+				for k, e := range es {
+					fields2 = append(fields2, reflect.StructField{Name: fmt.Sprintf("F%d", k), Type: tIface, Tag: reflect.StructTag(fmt.Sprintf(`config:"%s"`, strings.Replace(e.Key, ".", "::", -1)))})
+				}
+				st2 := reflect.New(reflect.StructOf(fields2)).Elem()
+				for k := range es {
+					st2.Field(k).Set(st.Field(k))
+				}
+				if _, err2 := ucfg.NewFrom(st2.Interface(), ucfg.PathSep("::")); (err2 == nil) != (err == nil) {
+					res = core.Fail("duplicates", "SEPARATOR-CHANGES-VERDICT", fmt.Sprintf("with PathSep(\".\"): %v; the same keys spelled with PathSep(\"::\"): %v", err, err2))
+					return
+				}
 				if collide {
 					if err == nil {
 						got, _ := canonOfConfig(c)
@@ -781,7 +828,7 @@ func init() {
 	core.Register(&core.Check{
 		ID:    "C05",
 		Level: "exploration",
-		Rule:  "every bounded tree with typed leaves (bool, ints of several kinds and signs, uint, floats, strings incl. empty) in every combination of Go representations per level (generic map, interface-keyed map, StructOf struct with and without tags, *Config (a root, a named child and a list element of another config), Config by value, pointers, pointer to interface, typed map/slice/array) must unpack to the canonical data of the tree and be idempotent under NewFrom(Unpack(.)) (data, FlattenedKeys, Has, IsDict/IsArray, CountField); every partial flattening into dotted keys gives the same data; every 2- and 3-entry input over overlapping dotted keys is rejected iff it defines a setting twice, in every insertion order; non-trivial = container with at least one leaf / any flattening or duplicate case",
+		Rule:  "every bounded tree with typed leaves (bool, ints of several kinds and signs, uint, floats, strings incl. empty) in every combination of Go representations per level (generic map, interface-keyed map, StructOf struct with and without tags, *Config (a root, a named child and a list element of another config), Config by value, pointers, pointer to interface, typed map/slice/array) must unpack to the canonical data of the tree and be idempotent under NewFrom(Unpack(.)) (data, FlattenedKeys, Has, IsDict/IsArray, CountField); every partial flattening into dotted keys (separators . :: -> /) gives the same data; every 2- and 3-entry input over overlapping dotted keys is rejected iff it defines a setting twice, in every insertion order; non-trivial = container with at least one leaf / any flattening or duplicate case",
 		Assumptions: []string{
 			"trees of depth<=2 over keys {a,b}, lists<=2; canonical form equates nil, absent, empty dict and empty list; numbers compared by value",
 			"insertion order for duplicates is fixed through struct field order (map orders are explored by C09)",
